@@ -6,6 +6,8 @@
   `fixedCfg` = the repaired code (sendall raises when send returns 0); `oldCfg` = before the repair.
 -/
 import PV.Model.ChanLoopLemmas
+import PV.Model.ChanNotifyLemmas
+import PV.Generated.ChanLock
 namespace PV.Props.C25
 open PV.Chan
 
@@ -170,5 +172,38 @@ example :
     (run fixedCfg (init 32768 100 4096 2 false)
       [.sendall 0 500 false, .iter 0, .emit 0, .iter 0, .close 1, .wake 0 0]).thr[0]? = some (.idle .sockClosed) := by
   decide +kernel
+
+/-! ## a blocked sendall is woken when window arrives (several senders parked on one channel) -/
+
+/-- `_window_adjust` wakes ALL sleepers (every `out_buffer_cv.notify…` call site in `_window_adjust`, from the AST
+    of channel.py on this run, is `notify_all`, and there is one) -/
+theorem window_adjust_notifies_all :
+    (PV.Generated.ChanLock.notifies.filter (·.caller == "_window_adjust")).all (·.all) = true ∧
+    (PV.Generated.ChanLock.notifies.filter (·.caller == "_window_adjust")) ≠ [] := by
+  decide
+
+/-- **No sendall is left asleep with window available.**  Strict scheduling (a sleeper runs again only when the
+    code notified it or its timeout expired), any number of threads blocked in sendall / sendall_stderr / send on
+    the channel, every schedule: a sender that is asleep in `_wait_for_send_window` while `out_window_size > 0` has
+    a notification pending — so it runs, and `wakeup_raises_or_shortens` applies: it raises or gets its bytes out.
+    (With `notify()` in `_window_adjust` this is false: PV.Props.C20.notify_one_strands_second_sender_witness.) -/
+theorem blocked_sendall_is_notified (n : NCfg) (hn : n.adjustAll = true) (cfg : Cfg)
+    (inWin peerWin peerMax nthr : Nat) (c : Bool) (sched : List Act) (t : Nat) :
+    isWaitingAt (nrun n cfg (ninit (init inWin peerWin peerMax nthr c)) sched).base t = true →
+    0 < (nrun n cfg (ninit (init inWin peerWin peerMax nthr c)) sched).base.outWin →
+    t ∈ (nrun n cfg (ninit (init inWin peerWin peerMax nthr c)) sched).sig := by
+  intro hw ho
+  have h0 : NoLost (ninit (init inWin peerWin peerMax nthr c)) := by
+    intro u hu _
+    simp only [ninit, isWaitingAt, init] at hu
+    by_cases hlt : u < nthr
+    · simp [hlt, TSt.isWaiting] at hu
+    · simp [hlt] at hu
+  have hi := nrun_nolost n hn cfg _ sched h0
+  cases hm : decide (t ∈ (nrun n cfg (ninit (init inWin peerWin peerMax nthr c)) sched).sig) with
+  | true => exact of_decide_eq_true hm
+  | false =>
+    have := hi t hw (of_decide_eq_false hm)
+    omega
 
 end PV.Props.C25
